@@ -213,7 +213,15 @@ func (g *G) anyMessageR() (util.Message, string, string) {
 		return of.NewBundleAdd(ba), "bundle-add+properties(" + ik + ")", ""
 	}
 	if g.r.Intn(2) == 0 {
-		m, t, k, xid := g.message(2)
+		depth := 2
+		if g.r.Intn(25) == 0 {
+			depth = 4 // bundles in bundles, conntrack actions in conntrack actions
+		}
+		if g.r.Intn(30) == 0 {
+			g.r.boost = 64 // one list of this message has more than 255 elements
+		}
+		m, t, k, xid := g.message(depth)
+		g.r.boost = 0
 		return m, k, fmt.Sprintf("%d %s", xid, t)
 	}
 	m, k := g.switchMessage()
